@@ -209,7 +209,10 @@ def inline_macros(prog: list, const_names: set[str] | None = None) -> tuple[list
         fresh[0] += 1
         return f"{base}_i{fresh[0]}"
 
-    def go(stmts: list, consts: set[str], depth: int) -> list:
+    def go(stmts: list, consts: set[str], depth: int, deferred: frozenset = frozenset()) -> list:
+        # `deferred`: parameters of enclosing applications whose argument is only known later. While the body is expanded such a
+        # name still means whatever outer definition is visible (or nothing): an argument of a nested application that mentions
+        # it, however deep, is evaluated then - inlining is not defined there (interpretation recorded in DESIGN 7.3)
         if depth > 12:
             raise NoTwin("macro nesting too deep to inline")
         stats["max_depth"] = max(stats["max_depth"], depth)
@@ -228,6 +231,8 @@ def inline_macros(prog: list, const_names: set[str] | None = None) -> tuple[list
                 if m is None or len(st["as"]) != len(m["ps"]):
                     raise NoTwin("undefined macro or arity mismatch: inlining is not defined")
                 stats["applications"] += 1
+                if deferred and any(isinstance(a, list) and any(t[0] == "sym" and t[1] in deferred for t in a) for a in st["as"]):
+                    raise NoTwin("deferred argument used where a value is needed early")
                 ren = {p: fresh_name(p) for p in m["ps"]}
                 for nm in _defined_names(m["b"]):
                     ren.setdefault(nm, fresh_name(nm))
@@ -245,7 +250,8 @@ def inline_macros(prog: list, const_names: set[str] | None = None) -> tuple[list
                 eager = {p for p, a in zip(m["ps"], st["as"]) if isinstance(a, list) and all(t[1] in consts for t in a if t[0] == "sym")}
                 inner_consts = (set(consts) - set(m["ps"])) | eager
                 early = early_names(rename(body, ren))      # incl. arguments of nested applications (evaluated at expansion when possible)
-                body = rename(go(body, inner_consts, depth + 1), ren)
+                now_deferred = (deferred - set(m["ps"])) | {p for p, a in zip(m["ps"], st["as"]) if isinstance(a, list) and p not in eager}
+                body = rename(go(body, inner_consts, depth + 1, frozenset(now_deferred)), ren)
                 early |= early_names(body)
                 binds: list = []
                 for p, a in zip(m["ps"], st["as"]):
@@ -266,11 +272,11 @@ def inline_macros(prog: list, const_names: set[str] | None = None) -> tuple[list
                 body = _own_include_files(body, f"_i{fresh[0]}")
                 out.append({"k": "block", "b": binds + body})
             elif k in ("block", "scope", "include"):
-                out.append(dict(st, b=go(st["b"], consts, depth + 1)))
+                out.append(dict(st, b=go(st["b"], consts, depth + 1, deferred)))
             elif k == "if":
-                out.append(dict(st, t=go(st["t"], consts, depth + 1), e=go(st["e"], consts, depth + 1) if st.get("e") is not None else None))
+                out.append(dict(st, t=go(st["t"], consts, depth + 1, deferred), e=go(st["e"], consts, depth + 1, deferred) if st.get("e") is not None else None))
             elif k == "for":
-                out.append(dict(st, body=go(st["body"], consts | {st["v"]}, depth + 1)))
+                out.append(dict(st, body=go(st["body"], consts | {st["v"]}, depth + 1, deferred - {st["v"]})))
             else:
                 out.append(st)
         return out
